@@ -221,8 +221,15 @@ func logSafeChild(args []string) {
 		defer devnull.Close()
 	}
 	var wg sync.WaitGroup
-	var lateContent func() string
 	var lateMu sync.Mutex
+	var lateContents []func() string
+	// composite loggers: every producer appends a member of its own at the same moment, then everybody logs
+	// a second series: each appended member must receive the whole second series
+	var appendGate, postGate sync.WaitGroup
+	if s.multi != nil {
+		appendGate.Add(producers)
+		postGate.Add(producers)
+	}
 	for p := 0; p < producers; p++ {
 		wg.Add(1)
 		go func(p int) {
@@ -236,12 +243,21 @@ func logSafeChild(args []string) {
 				if p == 1 && m%7 == 3 {
 					_ = s.loggers.SetLogSource(fmt.Sprintf("source%d", m))
 				}
-				if p == 0 && m == messages/2 && s.multi != nil {
-					member, content := s.lateSink()
-					_ = s.multi.Append(member)
-					lateMu.Lock()
-					lateContent = content
-					lateMu.Unlock()
+			}
+			if s.multi != nil {
+				member, content := s.lateSink()
+				appendGate.Done()
+				appendGate.Wait() // all producers append together
+				if err := s.multi.Append(member); err != nil {
+					fmt.Printf("FAIL append-fails:%s | %v\n", name, err)
+				}
+				lateMu.Lock()
+				lateContents = append(lateContents, content)
+				lateMu.Unlock()
+				postGate.Done()
+				postGate.Wait() // every Append has returned
+				for m := 0; m < 10; m++ {
+					s.loggers.Log(logMsg(p, 900+m, false))
 				}
 			}
 		}(p)
@@ -325,13 +341,20 @@ func logSafeChild(args []string) {
 		}
 	}
 	lateMu.Lock()
-	if lateContent != nil {
-		// the member appended while the producers ran must hold whole messages only
-		for _, line := range strings.Split(lateContent(), "\n") {
-			if n := len(logMsgRe.FindAllString(line, -1)); n > 1 {
-				fmt.Printf("FAIL message-mangled:%s | appended member holds several messages in one line\n", name)
-				break
+	for i, content := range lateContents {
+		// a member appended (Append returned) before the second series started must hold all of it, whole
+		txt := content()
+		missing := 0
+		for p := 0; p < producers; p++ {
+			for m := 0; m < 10; m++ {
+				if strings.Count(txt, logMsg(p, 900+m, false)) != 1 {
+					missing++
+				}
 			}
+		}
+		if missing > 0 {
+			fmt.Printf("FAIL appended-member-misses-messages:%s | member appended by producer %d misses %d of %d messages logged after every Append had returned\n", name, i, missing, producers*10)
+			break
 		}
 	}
 	lateMu.Unlock()
